@@ -21,7 +21,7 @@ try:
     env = dict(os.environ, PYTHONPATH=wt)
     TESTS = {"C01": "modulators", "C02": "modulators", "C03": "channels", "C04": "mimo", "C05": "simulations", "C06": "simulations",
              "C07": "simulations", "C08": "channels", "C09": "comm", "C10": "ia", "C11": "channels", "C12": "comm", "C13": "channels", "C14": "channels",
-             "C15": "modulators", "C16": "modulators", "C17": "simulations", "C18": "reference_signals", "C19": "cell", "C20": "util"}
+             "C15": "modulators", "C16": "modulators", "C17": "simulations", "C18": "reference_signals", "C19": "cell", "C20": "util", "X02": "simulations", "X02a": "util", "X02b": "simulations"}
     tmod = f"tests/{TESTS[meta['property']]}_package_test.py"
     def run_tests():
         r = subprocess.run(["/venv/bin/python", "-m", "pytest", "-q", "-p", "no:cacheprovider", "-x", "--timeout=600", tmod], cwd=wt,
